@@ -212,15 +212,15 @@ func c01Twin(run *evid.Run, h *hx.History, twin int, table map[string]*stateFn, 
 			if d := obsEqual(before, after); d != "" {
 				run.Violate("C01/noop-changed", det("op", s.Op), wit(where), "%s changed the log: %s", s.Op, d)
 			}
-		case "denyappend", "joinrejected", "joinalien":
+		case "denyappend", "joinrejected", "joinalien", "joinimpostor":
 			// a refused operation must change nothing (then or later: the state-function table keeps watching)
 			before := hx.Observe(x.Logs[s.R])
 			res := x.Do(i)
 			after := observe(s.R, where)
-			run.Count("refused_operations", 1)
-			if res.Err != nil {
+			countRefused(run, s)
+			if res.Err != nil || s.MustNotChange() {
 				if d := obsEqual(before, after); d != "" {
-					run.Violate("C01/refused-op-changed", det("op", s.Op), wit(where), "%s returned an error but changed the log: %s", s.Op, d)
+					run.Violate("C01/refused-op-changed", det("op", s.Op), wit(where), "%s was refused (or offered nothing new) but changed the log: %s", s.Op, d)
 				}
 			}
 		case "fork", "setident":
@@ -396,7 +396,7 @@ func CheckC02(run *evid.Run) {
 			before := x.Logs[s.R].Len()
 			res := x.Do(k)
 			if s.ExpectsError() {
-				run.Count("refused_operations", 1)
+				countRefused(run, s)
 			}
 			if s.Op == "burst" {
 				// every snapshot a concurrent reader took must be consistent in itself: heads = unreferenced entries of its values
